@@ -92,7 +92,14 @@ else:
         return int.from_bytes(bytes(octets), 'big', signed=signed)
 
     def to_bytes(value, signed=False, length=0):
-        length = max(value.bit_length(), length)
+        if signed and value < 0:
+            # two's complement: -2**(8*n-1) still fits into n octets
+            bits = (~value).bit_length()
+
+        else:
+            bits = value.bit_length()
+
+        length = max(bits, length)
 
         if signed and length % 8 == 0:
             length += 1
